@@ -464,6 +464,41 @@ func ruleR12e(c *Check) {
 		}
 		c.Require(ok, "R12e", key, "a true result for a target requires the "+f+" predicate == "+op+" (or an empty "+f+" filter)", "the filter can return true for a target although the "+f+" predicate did not hold (conjunction weakened): targets outside the requested set would be built", c.P.Pos(fn.Pos()))
 	}
+	// R12k: node kinds other than targets. An alias stands for a target; selecting it selects that target
+	// through the dependency closure. If the answer for an alias is computed from the patterns alone, the
+	// tag, exclude-tag and test/non-test filters do not apply to what it stands for.
+	c.Rule("R12k", "the answer of the node filter for a node that is not a target (an alias) is computed from every filter of the selector (type selection, patterns, tags, exclude-tags), not from the patterns alone", 1)
+	var missing []string
+	seen := false
+	for _, r := range engine.Returns(fn) {
+		for _, lf := range engine.PhiLeaves(r.Results[0]) {
+			var at ssa.Instruction
+			if lf.Pred != nil {
+				at = lf.Pred.Instrs[len(lf.Pred.Instrs)-1]
+			} else {
+				at = r
+			}
+			if !onNonTargetPath(fn, at) {
+				continue
+			}
+			if k, isK := engine.BoolConst(lf.Val); isK && !k {
+				seen = true
+				continue
+			}
+			seen = true
+			for _, f := range fields {
+				if !fromField(lf.Val, f) {
+					missing = append(missing, f)
+				}
+			}
+		}
+	}
+	if !seen {
+		c.Unknown("R12k", "non-target-nodes-filtered/"+fname, "no return of the node filter on the path for nodes that are not targets", c.P.Pos(fn.Pos()))
+	} else {
+		sort.Strings(missing)
+		c.Require(len(missing) == 0, "R12k", "non-target-nodes-filtered/"+fname, "aliases are accepted only under all four filters", "for a node that is not a target (an alias) the filter answers without consulting Selector."+strings.Join(missing, ", Selector.")+": `grog test //...` or `--tag=x //...` selects every alias the pattern matches and, through the closure, builds the target behind it although that target does not pass the filter", c.P.Pos(fn.Pos()))
+	}
 }
 
 // onNonTargetPath: the instruction is only reachable through the failed `node.(*model.Target)` assertion.
